@@ -278,26 +278,39 @@ def damaged_fields():
 def damaged_worker(_job):
     acc = core.Acc()
     names = {K(n).public_data: n for n in ('k1', 'k2', 'k3')}
-    good1 = ('', 'a', 'k1')
-    good2 = ('cert-authority', '*', 'k2')
+    markers = ('', 'cert-authority', 'revoked')
     for label, field in damaged_fields():
-        bad = ('', 'a', 'RAW:' + field)
+      for bm, m1, m2, sep in itertools.product(markers, markers, markers, ('', '# comment\n\n')):
+        # the damaged line carries each marker in turn; a marker belongs to its own line only
+        good1 = (m1, 'a', 'k1')
+        good2 = (m2, '*', 'k2')
+        bad = (bm, 'a', 'RAW:' + field)
+        if sep and not bm:
+            continue
         for order in ([bad, good1, good2], [good1, bad, good2], [good1, good2, bad]):
-            text = kh_text(order)
+            text = sep.join(kh_text([l]) for l in order)
             ref = kh_text([l for l in order if l is not bad])
             try:
-                r = asyncssh.import_known_hosts(text).match('a', '10.0.0.1', None)
-                r0 = asyncssh.import_known_hosts(ref).match('a', '10.0.0.1', None)
-                same = [sorted(names[k.public_data] for k in x) for x in r[:3]] == [sorted(names[k.public_data] for k in x) for x in r0[:3]]
-                err = None
+                same, err = True, None
+                for q in (('a', '10.0.0.1', None), ('a', '', 2222), ('b', '', None)):
+                    r = asyncssh.import_known_hosts(text).match(*q)
+                    r0 = asyncssh.import_known_hosts(ref).match(*q)
+                    if [sorted(names[k.public_data] for k in x) for x in r[:3]] != [sorted(names[k.public_data] for k in x) for x in r0[:3]]:
+                        same = False
+                        err = 'query %r: %r, without the damaged line %r' % (q, [sorted(names[k.public_data] for k in x) for x in r[:3]],
+                                                                            [sorted(names[k.public_data] for k in x) for x in r0[:3]])
+                        break
             except Exception as exc:        # pylint: disable=broad-except
                 same, err = False, repr(exc)
-            acc.add(core.digest(('kh-damaged', label, order.index(bad))), transitions=1,
-                    sample={'damaged_line': field[:60], 'position': order.index(bad)} if label == 'rsa-impossible-0' else None)
+            acc.add(core.digest(('kh-damaged', label, bm, m1, m2, sep, order.index(bad))), transitions=3,
+                    sample={'damaged_line': field[:60], 'its_marker': bm, 'position': order.index(bad)}
+                    if label == 'rsa-impossible-0' and bm == 'revoked' and not m1 and not m2 and not sep and order.index(bad) == 0 else None)
             if not same:
-                acc.violation('lookup:damaged-line-not-skipped:known_hosts:%s' % label.rsplit('-', 1)[0],
-                              'line %r at position %d: %s' % (field[:80], order.index(bad), err or 'result differs from file without it'),
+                acc.violation('lookup:damaged-line-not-skipped:known_hosts:%s%s' % (label.rsplit('-', 1)[0], ':marked' if bm else ''),
+                              'line %r (marker %r) at position %d of %r: %s' % (field[:80], bm, order.index(bad), text[:300], err or 'result differs from file without it'),
                               {'kind': 'damaged', 'label': label})
+            if m1 or m2 == 'revoked' or sep or bm == 'revoked':
+                continue
             # authorized_keys
             ak = ''.join(('%s %s\n' % (('cert-authority,no-pty' if l[0] else 'no-pty'), l[2][4:] if l[2].startswith('RAW:') else ' '.join(pub(l[2]))))
                          for l in order)
